@@ -23,7 +23,9 @@ CONSTANTS
   TsTypes,      \* set of targets usable in a @ts-types pragma
   JsonAttr,     \* TRUE: imports of .json targets may carry `with {type: "json"}`
   Emit,         \* TRUE: print REPLAY lines
-  Edits         \* TRUE: also choose one source edit (C19 reload histories)
+  Edits,        \* TRUE: also choose one source edit (C19 reload histories)
+  OptIsDynamic, \* BuildOptions::is_dynamic (the roots are dynamic imports of a running program)
+  OptSkipDynamic \* BuildOptions::skip_dynamic_deps
 
 \* global vocabulary: media class by extension and scheme of every id the profiles use
 ExtT == [r |-> "ts", a |-> "ts", b |-> "js", c |-> "ts", d |-> "dts", j |-> "json", g |-> "noext",
@@ -106,7 +108,7 @@ Next == step = 0 /\ step' = 1 /\ UNCHANGED <<w, edit>>
 Spec == Init /\ [][Next]_vars
 
 Kinds == {"all", "code", "types"}
-Opt(k) == [kind |-> k, isDynamic |-> FALSE, skipDynamic |-> FALSE, maxRedirects |-> 10]
+Opt(k) == [kind |-> k, isDynamic |-> OptIsDynamic, skipDynamic |-> OptSkipDynamic, maxRedirects |-> 10]
 B(k) == Build(w, w.roots, Opt(k))
 
 \* ---- design-level properties ------------------------------------------------
@@ -162,7 +164,8 @@ C19ReloadInv == (step = 1 /\ Edits) => \A k \in Kinds :
 
 \* ---- emission ----------------------------------------------------------------
 NoSch(g) == [f \in (DOMAIN g) \ {"sch"} |-> g[f]]
-Case == IF Edits THEN [w |-> w, graphs |-> [k \in Kinds |-> NoSch(B(k))], edit |-> edit, reloaded |-> [k \in Kinds |-> NoSch(R(k))]]
-        ELSE [w |-> w, graphs |-> [k \in Kinds |-> NoSch(B(k))]]
+BOpts == [isDynamic |-> OptIsDynamic, skipDynamic |-> OptSkipDynamic]
+Case == IF Edits THEN [opts |-> BOpts, w |-> w, graphs |-> [k \in Kinds |-> NoSch(B(k))], edit |-> edit, reloaded |-> [k \in Kinds |-> NoSch(R(k))]]
+        ELSE [opts |-> BOpts, w |-> w, graphs |-> [k \in Kinds |-> NoSch(B(k))]]
 EmitInv == (step = 1 /\ Emit) => PrintT(<<"REPLAY", ToJson(Case)>>)
 =============================================================================
